@@ -1,4 +1,5 @@
 import DryocVerif.Proofs.SecretBox
+import DryocVerif.Proofs.Inst
 import DryocVerif.Spec.NaCl
 /-
 C01 — secretbox / box / sealed box: every open ∘ seal pairing is the identity, all API forms
@@ -562,5 +563,127 @@ example : intoVec ⟨none, zeros 16, toyMsg⟩ = toBytes ⟨none, zeros 16, toyM
   forms_agree_intoVec_toBytes _ rfl
 
 end NonVacuity
+
+/-! ## 6. the round trips for the instance the native driver runs
+
+`Model.boxPrims` (`DryocVerif/Model/Inst.lean`) is what `Driver/Box.lean` instantiates the model with:
+XSalsa20 / HSalsa20 / X25519 / BLAKE2b executable specs and dryoc's Poly1305 limb model.  For it the
+`WF` hypothesis of the theorems above is discharged (`Proofs/Inst.lean`), leaving **one** hypothesis:
+the nonce has (at least) its 24 bytes — in Rust the type `[u8; 24]`.  It cannot be dropped: the
+executable spec is total on byte lists, and with a shorter nonce a Salsa20 block is shorter than 64
+bytes (`concrete_nonce_needed`; `Proofs.Inst.boxPrims_not_wf`).  Keys, messages and caller buffer
+contents are arbitrary. -/
+
+section Concrete
+open DryocVerif.Model (boxPrims)
+open DryocVerif.Proofs.Inst (boxPrims_guard_wf)
+open DryocVerif.Proofs.Inst.Box
+
+/-- `crypto_secretbox_open_easy ∘ crypto_secretbox_easy = id` for the driver's primitives: every key,
+every message, every nonce of 24 bytes; the box is 16 bytes longer than the message -/
+theorem secretbox_roundtrip_concrete (k n m buf : Bytes) (hn : 24 ≤ n.length) (hbuf : buf.length = m.length) :
+    ∃ ct, easy boxPrims (zeros (m.length + 16)) m n k = .ok ct ∧ ct.length = m.length + 16 ∧
+      openEasy boxPrims buf ct n k = ⟨.ok (), m⟩ := by
+  have hz : (zeros (m.length + 16)).length = m.length + 16 := by simp [zeros]
+  have hg := easy_eq (guard boxPrims) _ m n k hz
+  refine ⟨_, by rw [← guard_easy boxPrims n hn]; exact hg, ?_, ?_⟩
+  · rw [(combined_parts (sealTag_length boxPrims_guard_wf k n m)).2.2, cryptXor_length boxPrims_guard_wf]
+  · rw [← guard_openEasy boxPrims n hn]
+    exact open_seal_easy (guard boxPrims) boxPrims_guard_wf _ buf m n k _ hz hbuf hg
+
+/-- the same with an over-long message buffer: the rest of the caller's buffer is untouched -/
+theorem secretbox_roundtrip_oversized_concrete (k n m buf : Bytes) (hn : 24 ≤ n.length)
+    (hbuf : m.length ≤ buf.length) :
+    ∃ ct, easy boxPrims (zeros (m.length + 16)) m n k = .ok ct ∧
+      openEasy boxPrims buf ct n k = ⟨.ok (), m ++ buf.drop m.length⟩ := by
+  have hz : (zeros (m.length + 16)).length = m.length + 16 := by simp [zeros]
+  have hg := easy_eq (guard boxPrims) _ m n k hz
+  refine ⟨_, by rw [← guard_easy boxPrims n hn]; exact hg, ?_⟩
+  rw [← guard_openEasy boxPrims n hn]
+  exact open_seal_easy_oversized (guard boxPrims) boxPrims_guard_wf _ buf m n k _ hz hbuf hg
+
+/-- detached form -/
+theorem secretbox_detached_roundtrip_concrete (k n m buf : Bytes) (hn : 24 ≤ n.length)
+    (hbuf : buf.length = m.length) :
+    ∃ c tag, detached boxPrims (zeros m.length) m n k = .ok (c, tag) ∧ c.length = m.length ∧
+      tag.length = 16 ∧ openDetached boxPrims buf tag c n k = ⟨.ok (), m⟩ := by
+  have hz : (zeros m.length).length = m.length := by simp [zeros]
+  have hg := detached_eq (guard boxPrims) _ m n k hz
+  refine ⟨_, _, by rw [← guard_detached boxPrims n hn]; exact hg, cryptXor_length boxPrims_guard_wf k n m,
+    sealTag_length boxPrims_guard_wf k n m, ?_⟩
+  rw [← guard_openDetached boxPrims n hn]
+  exact open_seal_detached (guard boxPrims) boxPrims_guard_wf _ buf m n k _ _ hz hbuf hg
+
+/-- in-place form: the caller passes `m ‖ t` (16 spare bytes); after opening the buffer is `m ‖ tag` -/
+theorem secretbox_inplace_roundtrip_concrete (k n m t : Bytes) (hn : 24 ≤ n.length) (ht : t.length = 16) :
+    ∃ ct, easyInplace boxPrims (m ++ t) n k = .ok ct ∧ ct.length = m.length + 16 ∧
+      openEasyInplace boxPrims ct n k = ⟨.ok (), m ++ ct.take 16⟩ := by
+  have hg := easyInplace_eq (guard boxPrims) m t n k ht
+  refine ⟨_, by rw [← guard_easyInplace boxPrims n hn]; exact hg, ?_, ?_⟩
+  · rw [(combined_parts (sealTag_length boxPrims_guard_wf k n m)).2.2, cryptXor_length boxPrims_guard_wf]
+  · rw [← guard_openEasyInplace boxPrims n hn]
+    exact open_seal_easyInplace (guard boxPrims) boxPrims_guard_wf m t n k _ ht hg
+
+/-- detached in-place form -/
+theorem secretbox_detachedInplace_roundtrip_concrete (k n m : Bytes) (hn : 24 ≤ n.length) :
+    openDetachedInplace boxPrims (detachedInplace boxPrims m n k).1 (detachedInplace boxPrims m n k).2 n k
+      = ⟨.ok (), m⟩ := by
+  rw [← guard_openDetachedInplace boxPrims n hn, ← guard_detachedInplace boxPrims n hn]
+  exact open_seal_detachedInplace (guard boxPrims) boxPrims_guard_wf m n k _ _ rfl
+
+/-- object layer: `DryocSecretBox::decrypt ∘ DryocSecretBox::encrypt = id`, also through `to_bytes` / `from_bytes` -/
+theorem secretbox_obj_roundtrip_concrete (k n m : Bytes) (hn : 24 ≤ n.length) :
+    ∃ b, objEncrypt boxPrims m n k = .ok b ∧ objDecrypt boxPrims b n k = .ok m ∧
+      fromBytes (toBytes b) = .ok b := by
+  have hg := objEncrypt_eq (guard boxPrims) m n k
+  refine ⟨_, by rw [← guard_objEncrypt boxPrims n hn]; exact hg, ?_, ?_⟩
+  · rw [← guard_objDecrypt boxPrims n hn]
+    exact open_seal_obj (guard boxPrims) boxPrims_guard_wf m n k _ hg
+  · exact fromBytes_toBytes _ rfl (sealTag_length boxPrims_guard_wf k n m)
+
+/-- `crypto_box_open_easy ∘ crypto_box_easy = id` (same key material on both sides, i.e. the
+precomputed-key reading; for two key pairs add the DH agreement as in `box_open_seal_of_dh_comm`) -/
+theorem box_roundtrip_concrete (pk sk n m buf : Bytes) (hn : 24 ≤ n.length) (hbuf : buf.length = m.length) :
+    ∃ ct, boxEasy boxPrims (zeros (m.length + 16)) m n pk sk = .ok ct ∧ ct.length = m.length + 16 ∧
+      boxOpenEasy boxPrims buf ct n pk sk = ⟨.ok (), m⟩ := by
+  have hz : (zeros (m.length + 16)).length = m.length + 16 := by simp [zeros]
+  rw [boxEasy_eq_easy boxPrims _ m n pk sk (by omega)]
+  simp only [boxOpenEasy_eq_openEasy]
+  exact secretbox_roundtrip_concrete _ n m buf hn hbuf
+
+/-- sender `(spk, ssk)` seals to `rpk`, recipient `(rpk, rsk)` opens from `spk`, under the DH agreement of
+the two X25519 shared secrets -/
+theorem box_roundtrip_dh_concrete (spk ssk rpk rsk n m buf : Bytes) (hn : 24 ≤ n.length)
+    (hbuf : buf.length = m.length)
+    (hdh : Spec.X25519.x25519 ssk rpk = Spec.X25519.x25519 rsk spk) :
+    ∃ ct, boxEasy boxPrims (zeros (m.length + 16)) m n rpk ssk = .ok ct ∧
+      boxOpenEasy boxPrims buf ct n spk rsk = ⟨.ok (), m⟩ := by
+  obtain ⟨ct, h1, _, h2⟩ := box_roundtrip_concrete rpk ssk n m buf hn hbuf
+  refine ⟨ct, h1, ?_⟩
+  have hk : beforenm boxPrims spk rsk = beforenm boxPrims rpk ssk := by
+    show boxPrims.hsalsa (Spec.X25519.x25519 rsk spk) _ = boxPrims.hsalsa (Spec.X25519.x25519 ssk rpk) _
+    rw [hdh]
+  rw [boxOpenEasy_eq_openEasy, hk, ← boxOpenEasy_eq_openEasy]
+  exact h2
+
+/-- `DryocBox::decrypt ∘ DryocBox::encrypt = id` (same key material) -/
+theorem box_obj_roundtrip_concrete (pk sk n m : Bytes) (hn : 24 ≤ n.length) :
+    ∃ b, objBoxEncrypt boxPrims m n pk sk = .ok b ∧ objBoxDecrypt boxPrims b n pk sk = .ok m :=
+  let ⟨b, h1, h2, _⟩ := secretbox_obj_roundtrip_concrete (beforenm boxPrims pk sk) n m hn
+  ⟨b, h1, h2⟩
+
+/-- the nonce-length hypothesis cannot be dropped: under an empty nonce the executable XSalsa20 spec
+yields 56-byte blocks, and a 32-byte message is sealed into a 40-byte box (8 message bytes are lost)
+instead of 48 -/
+theorem concrete_nonce_needed :
+    ∃ ct, easy boxPrims (zeros 48) (zeros 32) [] [] = .ok ct ∧ ct.length = 40 := by
+  refine ⟨_, easy_eq boxPrims (zeros 48) (zeros 32) [] [] (by simp [zeros]), ?_⟩
+  have hs : (boxPrims.stream [] [] (32 + (zeros 32).length)).length = 56 :=
+    Proofs.Inst.boxPrims_stream_short
+  rw [List.length_append, sealTag, Proofs.Inst.boxPrims_mac_length, cryptXor, xorBytes_length,
+    List.length_drop, hs]
+  simp [zeros]
+
+end Concrete
 
 end DryocVerif.Properties.C01
